@@ -124,6 +124,13 @@ Step ==
          stuck == {w \in waits : EvEnd(w.c, flg, done, now)} IN
      IF (t > now \/ (e.e = "fin" /\ e.ok)) /\ stuck # {}
      THEN (IF \E w \in stuck : Nested(w.c) THEN Fail("C08.left_waiting_nested") ELSE Fail("C08.left_waiting")) /\ now' = now
+     \* the run is over and reports the levels as they ARE (whatever the mirror could follow): a plain comparison that
+     \* holds for them and still has a waiter was missed
+     ELSE IF e.e = "fin" /\ e.ok /\ "levels" \in DOMAIN e
+             /\ \E w \in waits : w.c[1] = "lvl" /\ w.c[2] \in 1..Len(e.levels)
+                    /\ LET fl == <<e.levels[w.c[2]], IF "levelsb" \in DOMAIN e THEN GetL(e.levelsb, w.c[2]) ELSE 0>> IN
+                       RelIv(fl, fl, w.c[4], w.c[3], TRUE, w.c[5])
+     THEN Fail("C08.left_waiting") /\ now' = now
      ELSE
      /\ now' = t
      /\ CASE e.e = "b" /\ op = "fset" ->
